@@ -227,6 +227,7 @@ CORE_FILES = [
     "job_shop_lib/generation/_instance_generator.py",
     "job_shop_lib/generation/_general_instance_generator.py",
     "job_shop_lib/visualization/_plot_gantt_chart.py",
+    "job_shop_lib/constraint_programming/_ortools_solver.py",
 ]
 
 
